@@ -152,6 +152,10 @@ class _BackendInterface(metaclass=ABCMeta):
         identifier = str(uuid.uuid4())
         while True:
             lock = await self.set_lock(key, identifier, expire=expire)
+            if lock is None:
+                # the command is disabled: no locking
+                yield
+                return
             if not lock:
                 # we need to check the connection by ping because
                 # if redis unavailable and a backend have flag `safe`
